@@ -315,12 +315,14 @@ theorem stateLoop_spec (conj : α → α) (explicit : Bool) (params : List P) (r
     · rw [hvec', hvec1, loopMats, prodRev_cons, Matrix.mulVec_mulVec]
       rfl
 
-/-- **`get_statevector` applies the ordered product to the input vector** — when the
-input state carries the circuit's radixes. -/
+/-- **`get_statevector` applies the ordered product to the input vector**: for a plain
+vector (`sr = none`, interpreted with the circuit's radixes) and for a `StateVector` that
+carries the circuit's radixes. -/
 theorem getStatevector_is_product (conj : α → α) (c : Circ P α) (hc : c.OpsOK) (inState : T α)
-    (hsize : inState.data.size = prod c.radixes) (params : List P)
+    (hsize : inState.data.size = prod c.radixes) (sr : Option (List Nat))
+    (hsr : sr.getD c.radixes = c.radixes) (params : List P)
     (hps : params = [] ∨ params.length = c.numParams) :
-    ∃ v, c.getStatevector conj inState (some c.radixes) params = .ok v ∧
+    ∃ v, c.getStatevector conj inState sr params = .ok v ∧
       toVec (prod c.radixes) v
         = Matrix.mulVec
             (prodRev (loopMats (prod c.radixes) c.radixes (params.length ≠ 0) params c.ops 0))
@@ -338,13 +340,25 @@ theorem getStatevector_is_product (conj : α → α) (c : Circ P α) (hc : c.Ops
     rw [hsize] at hok
     rcases hps with h | h
     · subst h
-      simpa [bind, Except.bind, pure, Except.pure, hsize] using hok
+      simpa [bind, Except.bind, pure, Except.pure, hsize, hsr] using hok
     · rw [h] at hok
-      simp only [bind, Except.bind, pure, Except.pure, hsize, h, ne_eq, not_true_eq_false,
-        if_false]
+      simp only [bind, Except.bind, hsize, hsr, h, ne_eq, not_true_eq_false, if_false]
       split <;> simpa using hok
   · exact hvec
 
+/-- A wrong dimension is a ValueError (for a plain vector: w.r.t. the circuit's radixes). -/
+theorem getStatevector_dim_error (conj : α → α) (c : Circ P α) (inState : T α)
+    (sr : Option (List Nat)) (hsize : prod (sr.getD c.radixes) ≠ inState.data.size)
+    (params : List P) (hps : params = [] ∨ params.length = c.numParams) :
+    c.getStatevector conj inState sr params = .error .valueError := by
+  unfold Circ.getStatevector
+  rcases hps with h | h
+  · subst h
+    simp [bind, Except.bind, hsize]
+    rfl
+  · simp only [bind, Except.bind, h, ne_eq, not_true_eq_false, if_false, hsize,
+      not_false_eq_true, if_true]
+    split <;> rfl
 
 /-! ### the gradient loop -/
 
